@@ -63,6 +63,9 @@ PROGRAMS = [
                                           ' .cstr "hi"\n'}, ('d3',)),
     ('nested includes', {'main.asm': '#include "n1.asm"\n nop\n', 'd1/n1.asm': '#include "n2.asm"\n ld b, 2\n', 'd2/n2.asm': ' ldx 9\n'}, ('d2', 'd1')),
     ('missing include', {'main.asm': ' nop\n#include "none.asm"\n'}, ('d1', 'd2')),
+    ('one file reachable through two include directories', {'main.asm': ' nop\n#include "lk.asm"\n ld a, 2\n#include "u1.asm"\n',
+                                                            'd1/lk.asm': 'lkl: .byte 1\n', 'd2/lk.asm': '@symlink:../d1/lk.asm',
+                                                            'd3/u1.asm': 'u1l: ld a, 1\n'}, ('d1', 'd2', 'd3')),
     ('several -D', {'main.asm': ' .byte LA, LB, LC\n#if LC >= 1\n nop\n#endif\n'}, ()),
     ('one name in several -D', {'main.asm': ' .byte LV\n#if LV >= 2\n nop\n#endif\n'}, ()),
 ]
@@ -75,7 +78,7 @@ FORMATS_B = ['listing', 'hex', 'intel_hex', 'minhex']
 def meta(tier):
     q = tier == 'quick'
     return {
-        'rule': 'part A: 10 programs (several include directories with unique, ambiguous, shadowing, nested and missing files; registers; '
+        'rule': 'part A: 11 programs (several include directories with unique, ambiguous, shadowing, nested, linked and missing files; registers; '
                 'mnemonics that are prefixes of one another or contain a period; macros; symbols; zones; several -D definitions, also of one name) x 2 output formats; the default '
                 'schedule and every schedule with one (thorough: two) deviating choice point (all permutations for sets of <=4 elements, '
                 'reversal and every rotation above) must produce identical status, image and pretty print; the default schedule is '
